@@ -30,20 +30,17 @@ type Exception struct {
 
 // Exceptions were confirmed by reading every consumer (DESIGN.md R3.3).
 var Exceptions = []Exception{
-	{"graph.(*WeightedAuthorizationModelGraph).calculateEdgeWeight", "edge.to.weights",
-		"keyed-store(weights);map-append(tupleCycleDependencies);collect(tupleCycle)",
+	{"(*graph.WeightedAuthorizationModelGraph).calculateEdgeWeight", "edge.to.weights",
+		"collect(tupleCycle);keyed-store(weights);map-append(tupleCycleDependencies)",
 		"appends the one current edge to tupleCycleDependencies[d] for pairwise distinct d (keys of one map); tupleCycle is only consumed by membership tests, filters, len and per-element appends to distinct lists"},
-	{"graph.(*WeightedAuthorizationModelGraph).calculateNodeWeightAndFixDependencies", "edge.weights",
-		"collect(references);store-const(weights)",
-		"references is only consumed as len(references) > 0; weights[key] = Infinite writes the same constant whatever the order"},
-	{"graph.(*WeightedAuthorizationModelGraph).fixDependantEdgesWeight", "edge.weights",
+	{"(*graph.WeightedAuthorizationModelGraph).fixDependantEdgesWeight", "edge.weights",
 		"join(edgeWeights);nested[join(edgeWeights);map-append(tupleCycleDependencies)]",
 		"slot-wise maximum into a fresh map; the append adds the one current edge to the list of a different cycle root, once per distinct key2 first seen"},
-	{"graph.(*WeightedAuthorizationModelGraph).fixDependantEdgesWeight", "node.weights",
+	{"(*graph.WeightedAuthorizationModelGraph).fixDependantEdgesWeight", "node.weights",
 		"join(edgeWeights);map-append(tupleCycleDependencies)",
 		"inner loop of the entry above"},
-	{"graph.(*AuthorizationModelGraphBuilder).upsertEdge", "iterator:g.Lines(from.ID(), to.ID())",
-		"field-append(conditions);return",
+	{"(*graph.AuthorizationModelGraphBuilder).upsertEdge", "iterator:g.Lines(from.ID(), to.ID())",
+		"field-append(conditions);nested[exists-return];return",
 		"at most one line per (from, to, edgeType, tuplesetRelation) exists: Direct and TTU lines are only created through upsertEdge, which returns at the first match, so at most one iteration has an effect"},
 }
 
@@ -69,6 +66,10 @@ type Analyzer struct {
 	P     *load.Prog
 	R     *oblig.Report
 	Loops []*Loop
+	// CallerOrderElem: when set (e.g. "openfga/v1.TypeDefinition"), ranging a slice of pointers to
+	// that type in the caller's order is an order source too, unless the ranged variable is a
+	// fresh copy sorted by a total comparator (the property demands independence of that order).
+	CallerOrderElem string
 }
 
 func isMap(t types.Type) bool {
@@ -149,6 +150,17 @@ func (a *Analyzer) CollectUnits(units []Unit) {
 					}
 				}
 			case *ast.RangeStmt:
+				if tv, ok := info.Types[s.X]; ok && a.CallerOrderElem != "" {
+					if sl, isSl := tv.Type.Underlying().(*types.Slice); isSl && strings.HasSuffix(sl.Elem().String(), a.CallerOrderElem) {
+						if sorted, _ := a.isSortedCopy(info, body, s); !sorted {
+							l := &Loop{Fn: fn, FnName: u.Name, Pkg: pk, Stmt: s, Kind: "caller-order", Ranged: exprKey(s.X), Body: s.Body, decl: syn}
+							if id, ok := s.Value.(*ast.Ident); ok && id.Name != "_" {
+								l.Val = objOf(info, id)
+							}
+							a.Loops = append(a.Loops, l)
+						}
+					}
+				}
 				if tv, ok := info.Types[s.X]; ok && isMap(tv.Type) {
 					l := &Loop{Fn: fn, FnName: u.Name, Pkg: pk, Stmt: s, Kind: "map", Ranged: exprKey(s.X), Body: s.Body, decl: syn}
 					if id, ok := s.Key.(*ast.Ident); ok && id.Name != "_" {
@@ -229,8 +241,8 @@ func pureCallee(fn *types.Func) bool {
 	}
 	if strings.HasPrefix(pkg, "gonum.org/v1/gonum/graph") {
 		switch fn.Name() {
-		case "ID", "From", "To", "Node", "Line", "Edge", "Len", "ReversedLine", "ReversedEdge":
-			return true
+		case "ID", "From", "To", "Node", "Line", "Edge", "Len", "ReversedLine", "ReversedEdge", "NodesOf", "LinesOf", "EdgesOf":
+			return true // the *Of helpers drain an iterator that is local to the caller
 		}
 	}
 	if strings.HasPrefix(pkg, "github.com/antlr4-go/antlr") {
